@@ -153,7 +153,7 @@ Print Assumptions matte_roundtrip_bound.
    a pixel (200, alpha 100) comes back as 114 *)
 Theorem doc_rgba_straight_refuted : exists img cmp r,
   wf_raster img /\ r_mode img = MRGBA /\
-  doc_export conv_simple (mkCfg true true false false false) cmp img = Ok r /\
+  doc_export conv_simple (mkCfg true true false false false false) cmp img = Ok r /\
   last_band r = last_band img /\
   exists x y a, r_bands img = [[x]; [x]; [x]; [a]] /\ r_bands r = [[y]; [y]; [y]; [a]] /\
                 Z.abs (y - x) > 127 / a + 1.
@@ -170,7 +170,7 @@ Print Assumptions doc_rgba_straight_refuted.
    can be read back from it (3x2 pixels: 2 bytes stored, 6 expected) *)
 Theorem doc_bitmap_unreadable_refuted : exists img,
   wf_raster img /\ r_mode img = M1 /\
-  (forall cmp, exists e, doc_export conv_simple (mkCfg true true false false false) cmp img = Err e) /\
+  (forall cmp, exists e, doc_export conv_simple (mkCfg true true false false false false) cmp img = Err e) /\
   exists r, doc_export conv_simple fixed RLE img = Ok r.
 Proof.
   exists (gen_raster M1 3 2 0 5 0).
@@ -260,7 +260,7 @@ Example layer_alpha_kept_hyp :
 Proof. repeat split; try discriminate; vm_compute; reflexivity. Qed.
 
 Example doc_roundtrip_hyp :
-  doc_export conv_simple (mkCfg true true false false false) ZIPP (gen_raster MCMYK 3 2 1 7 0)
+  doc_export conv_simple (mkCfg true true false false false false) ZIPP (gen_raster MCMYK 3 2 1 7 0)
   = Ok (gen_raster MCMYK 3 2 1 7 0).
 Proof. vm_compute. reflexivity. Qed.
 
@@ -366,3 +366,27 @@ Proof.
   exact (File.layer_survives_file zc zd Hz rdec Hr enc_s dec_s).
 Qed.
 Print Assumptions layer_survives_file.
+
+(* ---------------------------------------------------------------- 16 / 32-bit documents (F-C07-7) *)
+(* 13. with the proposed correction the samples of a layer are widened to the depth of the document:
+   a 16-bit sample is the byte twice (x * 257), which both readers map back to x exactly *)
+Theorem deep16_numpy_exact : forall v, byte v -> dec16_np v v = v.
+Proof. exact Proofs.dec16_np_enc. Qed.
+Print Assumptions deep16_numpy_exact.
+Theorem deep16_pil_exact : forall v, byte v -> dec16_pil v v = v.
+Proof. exact Proofs.dec16_pil_enc. Qed.
+Print Assumptions deep16_pil_exact.
+
+(* the tree as it is stores 8-bit planes, which a 16/32-bit document cannot decode: the export fails
+   for every layer; with the correction it is the 8-bit export *)
+Theorem deep_layer_export_refuted : forall c depth cm l,
+  fx_deep c = false -> depth <> 8 -> exists e, layer_topil_depth c depth cm l = Err e.
+Proof.
+  intros c depth cm l Hf Hd. unfold layer_topil_depth. rewrite Hf.
+  destruct (depth =? 8) eqn:E; [lia|]. eexists. reflexivity.
+Qed.
+Print Assumptions deep_layer_export_refuted.
+Theorem deep_layer_export : forall c depth cm l,
+  fx_deep c = true -> layer_topil_depth c depth cm l = layer_topil cm l.
+Proof. intros c depth cm l Hf. unfold layer_topil_depth. rewrite Hf. now rewrite orb_true_r. Qed.
+Print Assumptions deep_layer_export.
